@@ -270,11 +270,11 @@ def run_levels12(case, ctx):
 
 SUBCHECKS = [
     Sub("collinear", collinear_strategy, run_collinear, quick=700, thorough=8000, shards_quick=8,
-        required={"chain": 200, "far-from-the-origin": 71, "another-tree-of-the-same-source-measured-before": 90,
+        required={"chain": 200, "far-from-the-origin": 50, "another-tree-of-the-same-source-measured-before": 90,
                   "measured-after-a-failed-measurement": 104, "two-arm": 80, "overlapping-neighbours": 200, "all-apart": 20, "mc-term": 5,
                   "level:3": 30, "level:9": 10, "via-extract_feature": 20, "unit:0.001": 22, "unit:100.0": 29}),
     Sub("levels12", levels12_strategy, run_levels12, quick=800, thorough=10000, shards_quick=2,
-        required={"furcations>=2": 100, "single-node": 5, "zero-radius-node-with-children": 40,
+        required={"furcations>=2": 100, "single-node": 2, "zero-radius-node-with-children": 40,
                   "volume-asked-again-after-an-in-place-edit": 100, "volume-asked-again-on-a-derived-tree": 100,
                   "one-extractor-asked-for-several-levels": 200}),
 ]
